@@ -31,6 +31,9 @@ class HarnessError(Exception):
     pass
 
 
+_installed = {}
+
+
 class InjectedValidatorFault(ValueError):
     """The error an armed validator raises.  Subclass of ValueError so that the
     library treats it exactly like a real validation failure."""
@@ -58,6 +61,12 @@ class Ctx(object):
         self.probes = {}
         self.urlopen_calls = 0
         self.known_hits = {}
+        self.dump_hashes = []
+        self.real_set = bool(cfg.get("real_set"))
+        if _installed:
+            import builtins
+            for name in SET_MODULES:
+                _installed["mods"][name].set = builtins.set if self.real_set else SimSet
 
     def fault(self, kind, n=1):
         self.faults[kind] = self.faults.get(kind, 0) + n
@@ -174,6 +183,13 @@ class SimSet(set):
         return (SimSet, (list(self._base()),))
 
 
+def make_set(iterable=()):
+    """What a caller of productmd would write as set([...]): SimSet, or the real set in real_set runs."""
+    if CTX.real_set:
+        return set(iterable)
+    return SimSet(iterable)
+
+
 # --------------------------------------------------------------------------
 # os proxy
 # --------------------------------------------------------------------------
@@ -272,9 +288,6 @@ def _wrap_validator(cls, name, orig):
     wrapper.__wrapped__ = orig
     wrapper._simfw_wrapper = True
     return wrapper
-
-
-_installed = {}
 
 
 def modules():
